@@ -28,7 +28,7 @@ let candidate (v : view) : op option =
   | `SlicedS -> let (a, b) = slice () in if b - a > 0 then Some (OSlicedS (z a, z b, z (pick (divisors (b - a))))) else None
   | `Strided -> if n > 0 then Some (OStrided (z (pick (divisors n)))) else Some (OStrided (z 1))
   | `Dropped -> Some (ODropped (z (weighted [ (1, 0); (1, n); (8, rnd_range 0 (max 0 (n - 1))) ])))
-  | `Taked -> if r = 1 then Some (OTaked (z (weighted [ (1, 0); (1, n); (8, rnd_range (min 1 n) n) ]))) else None
+  | `Taked -> Some (OTaked (z (weighted [ (1, 0); (1, n); (8, rnd_range (min 1 n) n) ])))
   | `Rotated -> Some ORotated
   | `Unrotated -> Some OUnrotated
   | `Transposed -> if r >= 2 then Some OTransposed else None
